@@ -444,6 +444,9 @@ func defineIntersectionOrDictionaryType() {
 					p.report(&MissingClosingBraceInIntersectionOrDictionaryTypeError{
 						Pos: p.current.StartPos,
 					})
+					// The closing brace is missing, end the type at the end of the input,
+					// so that the type (and e.g. errors reported for it) have a proper end position
+					endPos = p.current.StartPos
 					atEnd = true
 
 				default:
